@@ -5,18 +5,14 @@
 
   CASE args: sequences separated by `|`; commands
     M x y | m dx dy | Z | L x y | l dx dy | H x | h dx | V y | v dy | Q cx cy x y | q … | T x y |
-    t dx dy | C c1 c2 to | c … | S c2 to | s … | A x y <ops> | a dx dy <ops> | R <ops>
-    ops = rx ry cx cy sx sy n (cx cy tx ty)×n
-  `ops` are the radii operand and what lyon_geom computes for that arc at the adapter's current
-  position (centre, start point, pieces).  Which branch `arc`/`arc_to` takes is decided by the
-  model (`numGeo`: `isStraightLine`, `approxEqPt`, `nearStart` at Float32).
-
-  Family `svg_arc_e2e`: NO advice.  The arc commands carry their operands only
+    t dx dy | C c1 c2 to | c … | S c2 to | s … |
     A x y rx ry rot large sweep | a dx dy rx ry rot large sweep | R cx cy rx ry sweep rot
-  and the whole arc geometry is computed by the model (`geoF32 = concreteGeo quadsVia64` of
-  `Model/Path/SvgConcrete.lean`: `SvgArc::is_straight_line`, `to_arc`, the `atan2` start angle of
-  `WithSvg::arc`, `Arc::from`, `Arc::cast::<f64>`, `for_each_quadratic_bezier` at f64, the cast
-  back to f32) — the instance of `Geo` that the theorems of `Props/C15b.lean` are about.
+  The arc commands carry their operands only: in ALL families the whole arc geometry is computed
+  by the model (`geoF32 = concreteGeo quadsVia64` of `Model/Path/SvgConcrete.lean`:
+  `SvgArc::is_straight_line`, `to_arc`, the `atan2` start angle of `WithSvg::arc`, `Arc::from`,
+  `approx_eq(center)`, the `< 0.01` test, `Arc::cast::<f64>`, `for_each_quadratic_bezier` at f64, the
+  cast back to f32) — the instance of `Geo` that the theorems of `Props/C15b.lean` are about.  No
+  value computed by lyon_geom reaches the model.
 -/
 import LyonVerif.Drive.Common
 import LyonVerif.Model.Path.Svg
@@ -26,51 +22,8 @@ namespace Lyon.Drive.C15
 open Lyon Lyon.Drive Lyon.Path Lyon.Svg
 
 abbrev F := Float32
-abbrev G := ArcOps F
-
 def h (s : String) : F := Wire.ofHex s
 def pt (x y : String) : Pt F := ⟨h x, h y⟩
-
-/-- the branches of `arc` / `arc_to` are decided by the model at `Float32` -/
-def geo : Geo F G := numGeo
-
-partial def parseQuads : Nat → List String → List (Pt F × Pt F) × List String
-  | 0, r => ([], r)
-  | n+1, cx :: cy :: tx :: ty :: r =>
-    let (qs, r') := parseQuads n r
-    ((pt cx cy, pt tx ty) :: qs, r')
-  | _, _ => ([], [])
-
-/-- `rx ry cx cy sx sy n (cx cy tx ty)×n` -/
-def parseOps : List String → G × List String
-  | rx :: ry :: cx :: cy :: sx :: sy :: n :: r =>
-    let (qs, r') := parseQuads n.toNat! r
-    (⟨pt rx ry, pt cx cy, pt sx sy, qs⟩, r')
-  | r => (⟨pt "0" "0", pt "0" "0", pt "0" "0", []⟩, r)
-
-partial def parse : List String → List (Cmd F G)
-  | [] => []
-  | "M" :: x :: y :: r => .moveTo (pt x y) :: parse r
-  | "m" :: x :: y :: r => .relMoveTo (pt x y) :: parse r
-  | "Z" :: r => .close :: parse r
-  | "L" :: x :: y :: r => .lineTo (pt x y) :: parse r
-  | "l" :: x :: y :: r => .relLineTo (pt x y) :: parse r
-  | "H" :: x :: r => .hLineTo (h x) :: parse r
-  | "h" :: x :: r => .relHLineTo (h x) :: parse r
-  | "V" :: y :: r => .vLineTo (h y) :: parse r
-  | "v" :: y :: r => .relVLineTo (h y) :: parse r
-  | "Q" :: a :: b :: x :: y :: r => .quadTo (pt a b) (pt x y) :: parse r
-  | "q" :: a :: b :: x :: y :: r => .relQuadTo (pt a b) (pt x y) :: parse r
-  | "T" :: x :: y :: r => .smoothQuadTo (pt x y) :: parse r
-  | "t" :: x :: y :: r => .smoothRelQuadTo (pt x y) :: parse r
-  | "C" :: a :: b :: c :: d :: x :: y :: r => .cubicTo (pt a b) (pt c d) (pt x y) :: parse r
-  | "c" :: a :: b :: c :: d :: x :: y :: r => .relCubicTo (pt a b) (pt c d) (pt x y) :: parse r
-  | "S" :: c :: d :: x :: y :: r => .smoothCubicTo (pt c d) (pt x y) :: parse r
-  | "s" :: c :: d :: x :: y :: r => .smoothRelCubicTo (pt c d) (pt x y) :: parse r
-  | "A" :: x :: y :: r => let (g, r') := parseOps r; .arcTo g (pt x y) :: parse r'
-  | "a" :: x :: y :: r => let (g, r') := parseOps r; .relArcTo g (pt x y) :: parse r'
-  | "R" :: r => let (g, r') := parseOps r; .arc g :: parse r'
-  | _ :: _ => []
 
 def fpt (p : Pt F) : String := fx p.x ++ " " ++ fx p.y
 
@@ -81,25 +34,12 @@ def fcall : Call (Pt F) Unit → String
   | .cubic c1 c2 p _ => "C " ++ fpt c1 ++ " " ++ fpt c2 ++ " " ++ fpt p
   | .end_ cl => "E " ++ fb cl
 
-/-- per command: its calls, then `; cur` -/
-def trace (s : St F) : List (Cmd F G) → List String
-  | [] => (endIfNeeded s).map fcall |> fun l => "build" :: l
-  | c :: r =>
-    let o := step geo s c
-    o.2.map fcall ++ [";", fpt o.1.cur] ++ trace o.1 r
-
-def runSeq (toks : List String) : String :=
-  unwords (trace (St.init (0 : F)) (parse toks))
-
 def splitBar : List String → List (List String)
   | [] => [[]]
   | t :: r =>
     match splitBar r with
     | [] => [[t]]
     | hd :: tl => if t == "|" then [] :: hd :: tl else (t :: hd) :: tl
-
-def seqs (v : Array String) : String :=
-  " | ".intercalate ((splitBar v.toList).map runSeq)
 
 /-! ### end to end: the concrete arc geometry, no advice -/
 
@@ -176,12 +116,12 @@ def seqsE (v : Array String) : String :=
 
 def families : List Family := [
   Family.plain "svg_arc_e2e" seqsE,
-  Family.plain "wit" seqs,
-  Family.plain "exh" seqs,
-  Family.plain "exhm" seqs,
-  Family.plain "blk" seqs,
-  Family.plain "rnd" seqs,
-  Family.plain "pat" seqs ]
+  Family.plain "wit" seqsE,
+  Family.plain "exh" seqsE,
+  Family.plain "exhm" seqsE,
+  Family.plain "blk" seqsE,
+  Family.plain "rnd" seqsE,
+  Family.plain "pat" seqsE ]
 
 end Lyon.Drive.C15
 
